@@ -32,6 +32,19 @@ static void scenario() {
     else if (streq(k, "enqueue_gc")) { tbb::task_arena ar(2); ar.initialize();   // the limit is lowered to 1 while the enqueue is in flight
         int t = spawn([&] { vf_gate_wait(); tbb::global_control gc(tbb::global_control::max_allowed_parallelism, 1); vf_point(); }); while (vf_gate_count() < 1) vf_yield();
         { tbb::global_control gc(tbb::global_control::max_allowed_parallelism, 2); vf_window(1); vf_gate_open(); ar.enqueue([&] { signal_ev(0); }); wait_ev(0); vf_join(t); vf_window(0); } }
+    else if (streq(k, "gc_pending")) {   // the parallelism limit drops to 1 (soft limit 0) while a mandatory request is ALREADY pending and not being served:
+        // arena A(2,1) is saturated by two application threads parked inside execute(), a task is enqueued into A (nobody can serve it), then the limit is lowered,
+        // then a task is enqueued into an idle arena B - it must run -, then the threads leave A and the task enqueued into A must run too
+        tbb::task_arena A(2, 1), B(2); A.initialize(); B.initialize(); static int inA, leave; inA = leave = 0;
+        int t1 = spawn([&] { (void)tbb::this_task_arena::max_concurrency(); A.execute([&] { inA++; vf_wake(&inA); while (!leave) vf_block_on(&leave); }); });
+        int t2 = spawn([&] { (void)tbb::this_task_arena::max_concurrency(); vf_gate_wait();
+            A.enqueue([&] { signal_ev(0); });                                                       // pending mandatory request, A has no free slot
+            tbb::global_control gc(tbb::global_control::max_allowed_parallelism, 1);               // soft limit 2 -> 0 while it is pending
+            B.enqueue([&] { signal_ev(1); }); wait_ev(1);                                           // an idle arena: the enqueued task must still get its (mandatory) worker
+            leave = 1; vf_wake(&leave); wait_ev(0); });
+        { tbb::global_control gc0(tbb::global_control::max_allowed_parallelism, 3);
+          A.execute([&] { while (inA < 1) vf_block_on(&inA); settle(); while (vf_gate_count() < 1) vf_yield(); vf_window(1); vf_gate_open(); while (!leave) vf_block_on(&leave); });
+          vf_join(t1); vf_join(t2); vf_window(0); } }
     else if (streq(k, "two_arenas")) { tbb::global_control gc(tbb::global_control::max_allowed_parallelism, 2); tbb::task_arena a(2), b(2); a.initialize(); b.initialize();   // one worker, two arenas with enqueued work
         vf_window(1); a.enqueue([&] { signal_ev(0); }); b.enqueue([&] { signal_ev(1); }); wait_ev(0); wait_ev(1); vf_window(0); }
     else if (streq(k, "execute_full")) { tbb::global_control gc(tbb::global_control::max_allowed_parallelism, 2); tbb::task_arena ar(2, 1); ar.initialize(); int inside = 0, c[3] = {0, 0, 0};
